@@ -521,3 +521,21 @@ _RD_HEAD = "    fn read(&self, mut buf: &mut [u8], addr: usize) -> Result<usize>
 m("x7-match-len-bound-first", "C18", VM, _RD_ORIG, _RD_HEAD + "        match buf.len() {\n            _ if addr >= self.size => return Err(Error::OutOfBounds { addr }),\n            0 => return Ok(0),\n            _ => {}\n        }\n", "?")
 m("x7-match-len-strict-bound", "C04", VM, _RD_ORIG, _RD_HEAD + "        match buf.len() {\n            0 => return Ok(0),\n            _ if addr > self.size => return Err(Error::OutOfBounds { addr }),\n            _ => {}\n        }\n", "?")
 m("x7-match-len-one-is-empty", "C18,C04", VM, _RD_ORIG, _RD_HEAD + "        match buf.len() {\n            0 | 1 => return Ok(0),\n            _ if addr >= self.size => return Err(Error::OutOfBounds { addr }),\n            _ => {}\n        }\n", "?")
+
+# retry_eintr! spelt with match + matches! (accepted since refactor round 5), each with one defect
+IO = "src/io.rs"
+_RE_ORIG = """            if let Err(crate::VolatileMemoryError::IOError(ref err)) = r {
+                if err.kind() == std::io::ErrorKind::Interrupted {
+                    continue;
+                }
+            }
+
+            break r;"""
+def _re_match(pat="std::io::ErrorKind::Interrupted"):
+    return f"""            match r {{
+                Err(crate::VolatileMemoryError::IOError(ref err)) if matches!(err.kind(), {pat}) => continue,
+                _ => break r,
+            }}"""
+m("x7-retry-matches-wouldblock", "C14", IO, _RE_ORIG, _re_match("std::io::ErrorKind::WouldBlock"), "R14.1.retry_loop")
+m("x7-retry-matches-two-kinds", "C14", IO, _RE_ORIG, _re_match("std::io::ErrorKind::Interrupted | std::io::ErrorKind::TimedOut"), "R14.1.retry_loop")
+m("x7-retry-matches-any-io-error", "C14", IO, _RE_ORIG, "            match r {\n                Err(crate::VolatileMemoryError::IOError(_)) => continue,\n                _ => break r,\n            }", "R14.1.retry_loop")
